@@ -1,5 +1,5 @@
 (* Classification of the regenerated write-set / escape facts (Gen/InstWrites.v) and the run-time reading of
-   those facts: an abstract heap, store events, and which events a syntactic fact licenses.
+   those facts: an abstract aheap, store events, and which events a syntactic fact licenses.
    Executable definitions only; proofs in Writes_proofs.v.
 
    The facts are syntactic: for every function that can run during parse()/lex()/scan()/parse_interactive()
@@ -179,23 +179,23 @@ Definition writable_held_cells : list (string * string) :=
    graph of the Lark instance when the call starts *)
 Record obj := mkObj { o_cls : string; o_held : bool }.
 Definition loc := (nat * string)%type.
-Definition heap := loc -> nat.                     (* attribute values, abstract *)
+Definition aheap := loc -> nat.                     (* attribute values, abstract *)
 
-Record wevent := mkW { w_fn : string; w_obj : nat; w_attr : string; w_val : nat }.
+Record stev := mkW { w_fn : string; w_obj : nat; w_attr : string; w_val : nat }.
 
 Definition loc_eqb (a b : loc) : bool := Nat.eqb (fst a) (fst b) && String.eqb (snd a) (snd b).
-Definition exec1 (h : heap) (e : wevent) : heap :=
+Definition exec1 (h : aheap) (e : stev) : aheap :=
   fun l => if loc_eqb l (w_obj e, w_attr e) then w_val e else h l.
-Definition exec (tr : list wevent) (h : heap) : heap := fold_left exec1 tr h.
+Definition exec (tr : list stev) (h : aheap) : aheap := fold_left exec1 tr h.
 
 (* the fact s covers the event e *)
-Definition licenses (objs : nat -> obj) (s : store) (e : wevent) : Prop :=
+Definition licenses (objs : nat -> obj) (s : store) (e : stev) : Prop :=
   s_fn s = w_fn e /\
   if self_plain s
   then In (o_cls (objs (w_obj e))) (s_family s) /\ w_attr e = s_attr s
   else o_held (objs (w_obj e)) = false.     (* object under construction / fresh / reviewed *)
 
-Definition licensed (objs : nat -> obj) (e : wevent) : Prop := exists s, In s stores /\ licenses objs s e.
+Definition licensed (objs : nat -> obj) (e : stev) : Prop := exists s, In s stores /\ licenses objs s e.
 
 (* every held object has one of the held classes *)
 Definition typed (objs : nat -> obj) : Prop := forall o, o_held (objs o) = true -> In (o_cls (objs o)) held_classes.
@@ -205,5 +205,13 @@ Definition writable (c a : string) : bool :=
   existsb (fun s => self_plain s && mem_string c (s_family s) && String.eqb a (s_attr s)) stores.
 
 (* two heaps agree on everything the instance holds that no parse path can write *)
-Definition frame_eq (objs : nat -> obj) (h h' : heap) : Prop :=
+Definition frame_eq (objs : nat -> obj) (h h' : aheap) : Prop :=
   forall o a, o_held (objs o) = true -> writable (o_cls (objs o)) a = false -> h (o, a) = h' (o, a).
+
+(* decidable version of [licensed], for concrete traces *)
+Definition licensesb (objs : nat -> obj) (s : store) (e : stev) : bool :=
+  String.eqb (s_fn s) (w_fn e) &&
+  (if self_plain s
+   then mem_string (o_cls (objs (w_obj e))) (s_family s) && String.eqb (w_attr e) (s_attr s)
+   else negb (o_held (objs (w_obj e)))).
+Definition licensedb (objs : nat -> obj) (e : stev) : bool := existsb (fun s => licensesb objs s e) stores.
